@@ -312,6 +312,17 @@ func (d *TsDemux) Flush() {
 	}
 }
 
+// NewEpoch is called for a consumer that stays attached while the source of the stream is replaced: what the
+// consumer learnt from PAT / PMT stays (that is what a player still holds), the continuity counters of the new
+// source start wherever they like.
+func (d *TsDemux) NewEpoch() {
+	for _, p := range d.pids {
+		p.lastCc = -1
+		p.flushed = false
+		p.cur = nil
+	}
+}
+
 // Take returns and clears the frames completed so far.
 func (d *TsDemux) Take() []*EsFrame {
 	o := d.Out
